@@ -340,7 +340,7 @@ func RunConcScenario(sc *Scenario) (vd *Verdict) {
 	if sc.Property == "C19" {
 		r.Stats["catalogue_checks"]++
 		if v, name := checkCatalogue(h, nil); v != nil {
-			// KF-C19-1: create / delete / rename of a dataset racing writes to the same dataset name
+			// (label of the former finding KF-C19-1, repaired) create / delete / rename of a dataset racing writes to the same dataset name
 			if r.tainted[name] {
 				v.Signature = "concurrent-with-dataset-management:" + v.Signature
 			} else {
@@ -422,7 +422,7 @@ func RunConcScenario(sc *Scenario) (vd *Verdict) {
 					}
 				}
 			}
-			// KF-C12-1: the compactor decided from its snapshot to drop the newest (duplicate) version of an
+			// (label of the former finding KF-C12-1, repaired) the compactor decided from its snapshot to drop the newest (duplicate) version of an
 			// entity and to point "latest" back at the predecessor, while a writer stored a newer version
 			racePrefix := "racing-writer:"
 			for _, co := range r.commitOf {
